@@ -157,9 +157,9 @@ theorem printAdvance_eq (e : Emu) (w : Nat) (cols : Nat) (hawm : e.mode.decawm =
   simp only [h1, if_false]
   by_cases h2 : e.cur.col + (w : Int) ≥ cols
   · have h3 : e.cur.col + (w : Int) ≥ (cols : Int) - 1 + 1 := by omega
-    simp [h2, h3, hawm]
+    simp [h2, hawm]
   · have h3 : ¬ (e.cur.col + (w : Int) ≥ (cols : Int) - 1 + 1) := by omega
-    simp [h2, h3]
+    simp [h2]
 
 theorem forUpBrk_none {σ : Type} (body : Int → σ → M (σ × Bool)) (s : σ) :
     forUpBrk 1 (((1 : Nat) : Int) - 1) body s = .ok s := rfl
@@ -202,6 +202,47 @@ theorem printK1_narrow {e : Emu} {rows cols : Nat} (h : EmuInv e rows cols) (d :
   rw [getI_some h.rowLo hrow, exceptOk_bind, setI_ok row _ _ h.colLo (by omega), exceptOk_bind,
     setI_ok e.active _ _ h.rowLo (by rw [hg.len]; omega), exceptOk_bind, forUpBrk_none, exceptOk_bind]
 
+
+theorem modCell_eq {g : Grid} {row : Row} {x : ECell} (r c : Int) (f : ECell → ECell)
+    (hr0 : 0 ≤ r) (hc0 : 0 ≤ c) (hrow : g[r.toNat]? = some row) (hx : row[c.toNat]? = some x) :
+    modCell g r c f = .ok (g.set r.toNat (row.set c.toNat (f x))) := by
+  have hr1 : r.toNat < g.length := by
+    rcases Nat.lt_or_ge r.toNat g.length with h1 | h1
+    · exact h1
+    · rw [List.getElem?_eq_none h1] at hrow; simp at hrow
+  have hc1 : c.toNat < row.length := by
+    rcases Nat.lt_or_ge c.toNat row.length with h1 | h1
+    · exact h1
+    · rw [List.getElem?_eq_none h1] at hx; simp at hx
+  unfold modCell
+  rw [getI_some hr0 hrow, exceptOk_bind, getI_some hc0 hx, exceptOk_bind,
+    setI_ok row c _ hc0 (by omega), exceptOk_bind, setI_ok g r _ hr0 (by omega)]
+
+theorem printK1_wide {e : Emu} {rows cols : Nat} (h : EmuInv e rows cols) (d : Dim rows cols)
+    (hirm : e.mode.irm = false) (hc : e.cur.col + 1 < cols) (g : G) {row : Row} {x : ECell}
+    (hrow : e.active[e.cur.row.toNat]? = some row) (hlen : row.length = cols)
+    (hx : row[e.cur.col.toNat + 1]? = some x) :
+    printK1 g 2 e = .ok (printAdvance (e.setActive (e.active.set e.cur.row.toNat
+        ((row.set e.cur.col.toNat { g := g, w := 2, st := e.cur.st }).set (e.cur.col.toNat + 1)
+          { x with g := [32], st := e.cur.st }))) ((2 : Nat) : Int)) := by
+  have hg := active_ok h
+  have := h.rowLo; have := h.rowHi; have := h.colLo; have hr := h.right
+  rw [printK1_pos h d hirm (by omega)]
+  unfold printWrite
+  rw [if_neg (by decide)]
+  rw [getI_some h.rowLo hrow, exceptOk_bind, setI_ok row _ _ h.colLo (by omega), exceptOk_bind,
+    setI_ok e.active _ _ h.rowLo (by rw [hg.len]; omega), exceptOk_bind, forUpBrk_once]
+  have hnb : ¬ (e.cur.col + 1 > e.right) := by omega
+  rw [if_neg hnb]
+  have hn : (e.cur.col + 1).toNat = e.cur.col.toNat + 1 := by omega
+  have hrow' : (e.active.set e.cur.row.toNat
+      (row.set e.cur.col.toNat { g := g, w := 2, st := e.cur.st }))[e.cur.row.toNat]? =
+      some (row.set e.cur.col.toNat { g := g, w := 2, st := e.cur.st }) := by
+    rw [List.getElem?_set]; simp; rw [hg.len]; omega
+  have hx' : (row.set e.cur.col.toNat { g := g, w := 2, st := e.cur.st })[(e.cur.col + 1).toNat]? = some x := by
+    rw [hn, List.getElem?_set]; simp; exact hx
+  rw [modCell_eq _ _ _ h.rowLo (by omega) hrow' hx', exceptOk_bind, exceptOk_bind, exceptOk_bind,
+    List.set_set, hn]
 
 /-! ### rows -/
 
@@ -273,6 +314,516 @@ theorem writeNarrow_eq (t : Term.T) (g : Term.G) :
 theorem writeWide_eq (t : Term.T) (g : Term.G) :
     t.writeWide g = wideCore (if t.pw ∨ t.col + 1 = t.cols then wrapT t else t) g := rfl
 
+
+/-! ### the autowrap phase -/
+
+theorem setGrid_self (t : Term.T) : t.setGrid t.grid = t := by
+  unfold Term.T.setGrid Term.T.grid
+  by_cases h : t.onAlt = true
+  · rw [if_pos h, if_pos h]
+  · rw [if_neg h, if_neg h]
+
+theorem list_set_self {α : Type} {l : List α} {k : Nat} {x : α} (h : l[k]? = some x) : l.set k x = l := by
+  apply List.ext_getElem?
+  intro i
+  rw [List.getElem?_set]
+  by_cases hk : k = i
+  · subst hk
+    have hlt : k < l.length := by
+      rcases Nat.lt_or_ge k l.length with h1 | h1
+      · exact h1
+      · rw [List.getElem?_eq_none h1] at h; simp at h
+    simp only [if_true, hlt, h]
+  · simp [hk]
+
+/-- Marking a cell `wrapped` is invisible to the abstraction. -/
+theorem absRow_wrapped {row : Row} {k : Nat} {x : ECell} (h : row[k]? = some x) :
+    absRow (row.set k { x with wrapped := true }) = absRow row := by
+  unfold absRow
+  rw [List.map_set]
+  have : absCell { x with wrapped := true } = absCell x := rfl
+  rw [this]
+  exact list_set_self (by simp [h])
+
+theorem wrapT_pw (t : Term.T) : (wrapT t).pw = false := rfl
+
+theorem wrapT_col (t : Term.T) : (wrapT t).col = 0 := by
+  unfold wrapT Term.T.indCore Term.T.scrollUp
+  simp only
+  split
+  · exact setGrid_col _ _
+  · split <;> rfl
+
+theorem scrollUp_lastCol {e e' : Emu} {n : Int} (h : scrollUp e n = .ok e') : e'.lastCol = e.lastCol := by
+  unfold scrollUp at h
+  simp only [bind, Except.bind] at h
+  split at h
+  · simp at h
+  · simp only [Except.ok.injEq] at h
+    rw [← h]; simp
+
+theorem nel_lastCol {e e' : Emu} (h : nel e = .ok e') : e'.lastCol = false := by
+  unfold nel at h
+  simp only [bind, Except.bind] at h
+  split at h
+  · simp at h
+  · rename_i e1 he1
+    simp only [Except.ok.injEq] at h
+    rw [← h]
+    show e1.lastCol = false
+    unfold ind at he1
+    simp only at he1
+    split at he1
+    · exact (scrollUp_lastCol he1).trans rfl
+    · split at he1 <;> (simp only [Except.ok.injEq] at he1; rw [← he1])
+
+
+/-! ### loops: rules with an invariant that mentions the index -/
+
+theorem forDownGo_ix {σ : Type} (P : Int → σ → Prop) (body : Int → σ → M σ) :
+    ∀ (n : Nat) (i0 : Int) (s : σ), P i0 s →
+      (∀ i s, i ≤ i0 → i0 - n < i → P i s → ∃ s', body i s = .ok s' ∧ P (i - 1) s') →
+      ∃ s', forDownGo body n i0 s = .ok s' ∧ P (i0 - n) s' := by
+  intro n
+  induction n with
+  | zero => intro i0 s hs _; exact ⟨s, rfl, by simpa using hs⟩
+  | succ n ih =>
+    intro i0 s hs hb
+    obtain ⟨s1, h1, hp1⟩ := hb i0 s (by omega) (by omega) hs
+    obtain ⟨s2, h2, hp2⟩ := ih (i0 - 1) s1 hp1 (fun i s hi1 hi2 hp => hb i s (by omega) (by omega) hp)
+    refine ⟨s2, by simp only [forDownGo, h1, bind, Except.bind, h2], ?_⟩
+    have : i0 - ((n + 1 : Nat) : Int) = i0 - 1 - (n : Int) := by omega
+    rw [this]; exact hp2
+
+/-- `for i := hi; i >= lo; i--` with `lo ≤ hi + 1`: from `P hi` to `P (lo - 1)`. -/
+theorem forDown_ix {σ : Type} (P : Int → σ → Prop) (body : Int → σ → M σ) (hi lo : Int) (s : σ)
+    (hn : hi + 1 - lo ≤ (hangLimit : Int)) (hle : lo ≤ hi + 1) (hs : P hi s)
+    (hb : ∀ i s, lo ≤ i → i ≤ hi → P i s → ∃ s', body i s = .ok s' ∧ P (i - 1) s') :
+    ∃ s', forDown hi lo body s = .ok s' ∧ P (lo - 1) s' := by
+  unfold forDown
+  have hle' : (hi + 1 - lo).toNat ≤ hangLimit := by omega
+  simp only [hle', if_true]
+  obtain ⟨s', h1, h2⟩ := forDownGo_ix P body (hi + 1 - lo).toNat hi s hs
+    (fun i s h1 h2 hp => hb i s (by omega) h1 hp)
+  refine ⟨s', h1, ?_⟩
+  have : hi - ((hi + 1 - lo).toNat : Int) = lo - 1 := by omega
+  rw [← this]; exact h2
+
+theorem forDown_empty {σ : Type} (body : Int → σ → M σ) (hi lo : Int) (s : σ) (h : hi + 1 ≤ lo) :
+    forDown hi lo body s = .ok s := by
+  unfold forDown
+  have : (hi + 1 - lo).toNat = 0 := by omega
+  simp [this, forDownGo]
+
+theorem forUpGo_ix' {σ : Type} (P : Int → σ → Prop) (body : Int → σ → M σ) :
+    ∀ (n : Nat) (i0 : Int) (s : σ), P i0 s →
+      (∀ i s, i0 ≤ i → i < i0 + n → P i s → ∃ s', body i s = .ok s' ∧ P (i + 1) s') →
+      ∃ s', forUpGo body n i0 s = .ok s' ∧ P (i0 + n) s' := by
+  intro n
+  induction n with
+  | zero => intro i0 s hs _; exact ⟨s, rfl, by simpa using hs⟩
+  | succ n ih =>
+    intro i0 s hs hb
+    obtain ⟨s1, h1, hp1⟩ := hb i0 s (by omega) (by omega) hs
+    obtain ⟨s2, h2, hp2⟩ := ih (i0 + 1) s1 hp1 (fun i s hi1 hi2 hp => hb i s (by omega) (by omega) hp)
+    refine ⟨s2, by simp only [forUpGo, h1, bind, Except.bind, h2], ?_⟩
+    have : i0 + ((n + 1 : Nat) : Int) = i0 + 1 + (n : Int) := by omega
+    rw [this]; exact hp2
+
+/-- `for i := lo; i <= hi; i++` with `lo ≤ hi + 1`: from `P lo` to `P (hi + 1)`. -/
+theorem forUp_ix' {σ : Type} (P : Int → σ → Prop) (body : Int → σ → M σ) (lo hi : Int) (s : σ)
+    (hn : hi + 1 - lo ≤ (hangLimit : Int)) (hle : lo ≤ hi + 1) (hs : P lo s)
+    (hb : ∀ i s, lo ≤ i → i ≤ hi → P i s → ∃ s', body i s = .ok s' ∧ P (i + 1) s') :
+    ∃ s', forUp lo hi body s = .ok s' ∧ P (hi + 1) s' := by
+  unfold forUp
+  have hle' : (hi + 1 - lo).toNat ≤ hangLimit := by omega
+  simp only [hle', if_true]
+  obtain ⟨s', h1, h2⟩ := forUpGo_ix' P body (hi + 1 - lo).toNat lo s hs
+    (fun i s h1 h2 hp => hb i s h1 (by omega) hp)
+  refine ⟨s', h1, ?_⟩
+  have : lo + ((hi + 1 - lo).toNat : Int) = hi + 1 := by omega
+  rw [← this]; exact h2
+
+/-- Breaking loop: the body either goes on (`P (i+1)`) or breaks having established the final
+    invariant `P iend` already. -/
+theorem forUpBrkGo_ix' {σ : Type} (P : Int → σ → Prop) (body : Int → σ → M (σ × Bool)) (iend : Int) :
+    ∀ (n : Nat) (i0 : Int) (s : σ), i0 + n = iend → P i0 s →
+      (∀ i s, i0 ≤ i → i < iend → P i s →
+        ∃ r, body i s = .ok r ∧ (r.2 = true → P (i + 1) r.1) ∧ (r.2 = false → P iend r.1)) →
+      ∃ r, forUpBrkGo body n i0 s = .ok r ∧ P iend r.1 := by
+  intro n
+  induction n with
+  | zero => intro i0 s he hs _; exact ⟨(s, false), rfl, by rw [← he]; simpa using hs⟩
+  | succ n ih =>
+    intro i0 s he hs hb
+    obtain ⟨⟨s1, go⟩, h1, hp1, hq1⟩ := hb i0 s (by omega) (by omega) hs
+    cases go with
+    | false => exact ⟨(s1, true), by simp only [forUpBrkGo, h1, bind, Except.bind]; rfl, hq1 rfl⟩
+    | true =>
+      obtain ⟨r2, h2, hp2⟩ := ih (i0 + 1) s1 (by omega) (hp1 rfl)
+        (fun i s hi1 hi2 hp => hb i s (by omega) hi2 hp)
+      exact ⟨r2, by simp only [forUpBrkGo, h1, bind, Except.bind, h2, if_true], hp2⟩
+
+theorem forUpBrk_ix' {σ : Type} (P : Int → σ → Prop) (body : Int → σ → M (σ × Bool)) (lo hi : Int) (s : σ)
+    (hn : hi + 1 - lo ≤ (hangLimit : Int)) (hle : lo ≤ hi + 1) (hs : P lo s)
+    (hb : ∀ i s, lo ≤ i → i ≤ hi → P i s →
+      ∃ r, body i s = .ok r ∧ (r.2 = true → P (i + 1) r.1) ∧ (r.2 = false → P (hi + 1) r.1)) :
+    ∃ s', forUpBrk lo hi body s = .ok s' ∧ P (hi + 1) s' := by
+  unfold forUpBrk
+  have hle' : (hi + 1 - lo).toNat ≤ hangLimit := by omega
+  simp only [hle', if_true]
+  obtain ⟨r, hr, hp⟩ := forUpBrkGo_ix' P body (hi + 1) (hi + 1 - lo).toNat lo s (by omega) hs
+    (fun i s h1 h2 hp => hb i s h1 (by omega) hp)
+  exact ⟨r.1, by rw [hr]; rfl, hp⟩
+
+/-! ### lists: inserting / deleting cells in a row -/
+
+theorem ins_getElem? {α : Type} (l : List α) (c m cols : Nat) (b : α) (hl : l.length = cols)
+    (hcm : c + m ≤ cols) (j : Nat) :
+    (l.take c ++ List.replicate m b ++ (l.drop c).take (cols - c - m))[j]? =
+      if j < c then l[j]? else if j < c + m then some b else if j < cols then l[j - m]? else none := by
+  rw [List.getElem?_append, List.getElem?_append]
+  simp only [List.length_append, List.length_take, List.length_replicate, hl,
+    List.getElem?_take, List.getElem?_replicate, List.getElem?_drop]
+  have h1 : min c cols = c := by omega
+  rw [h1]
+  by_cases hj1 : j < c
+  · have : j < c + m := by omega
+    simp [hj1, this]
+  · by_cases hj2 : j < c + m
+    · have : j - c < m := by omega
+      simp [hj1, hj2, this]
+    · by_cases hj3 : j < cols
+      · have h4 : j - (c + m) < cols - c - m := by omega
+        have h5 : c + (j - (c + m)) = j - m := by omega
+        simp [hj1, hj2, hj3, h4, h5]
+      · have h4 : ¬ (j - (c + m) < cols - c - m) := by omega
+        simp [hj1, hj2, hj3, h4]
+
+theorem del_getElem? {α : Type} (l : List α) (c m cols : Nat) (b : α) (hl : l.length = cols)
+    (hcm : c + m ≤ cols) (j : Nat) :
+    (l.take c ++ l.drop (c + m) ++ List.replicate m b)[j]? =
+      if j < c then l[j]? else if j + m < cols then l[j + m]? else if j < cols then some b else none := by
+  rw [List.getElem?_append, List.getElem?_append]
+  simp only [List.length_append, List.length_take, List.length_drop, hl,
+    List.getElem?_take, List.getElem?_replicate, List.getElem?_drop]
+  have h1 : min c cols = c := by omega
+  rw [h1]
+  by_cases hj1 : j < c
+  · have : j < c + (cols - (c + m)) := by omega
+    simp [hj1, this]
+  · by_cases hj2 : j + m < cols
+    · have h3 : j < c + (cols - (c + m)) := by omega
+      have h5 : c + m + (j - c) = j + m := by omega
+      simp [hj1, hj2, h3, h5]
+    · have h3 : ¬ (j < c + (cols - (c + m))) := by omega
+      by_cases hj3 : j < cols
+      · have h4 : j - (c + (cols - (c + m))) < m := by omega
+        simp [hj1, hj2, hj3, h3, h4]
+      · have h4 : ¬ (j - (c + (cols - (c + m))) < m) := by omega
+        simp [hj1, hj2, hj3, h3, h4]
+
+
+/-! ### ICH, emulator side -/
+
+theorem getElem?_some_of_lt {α : Type} (l : List α) (j : Nat) (h : j < l.length) : ∃ x, l[j]? = some x :=
+  ⟨l[j], List.getElem?_eq_getElem h⟩
+
+/-- first loop of ich(): `line[i] = line[i-k]` for `i` from the right margin down to `col+k` -/
+theorem ich_loop1 (line : Row) (cols c k : Nat) (hlen : line.length = cols) (hk : 1 ≤ k)
+    (hcm : cols ≤ 65535) :
+    ∃ line1, forDown ((cols : Int) - 1) ((c : Int) + (k : Int)) (fun i line => do
+        let x ← getI line (i - (k : Int))
+        setI line i x) line = .ok line1 ∧ line1.length = cols ∧
+      ∀ j : Nat, line1[j]? = if c + k ≤ j ∧ j < cols then line[j - k]? else line[j]? := by
+  by_cases hfit : c + k ≤ cols
+  · obtain ⟨l1, h1, h2, h3⟩ := forDown_ix
+      (fun (i : Int) (l : Row) => l.length = cols ∧
+        ∀ j : Nat, l[j]? = if i < (j : Int) ∧ j < cols then line[j - k]? else line[j]?)
+      (fun i line => do
+        let x ← getI line (i - (k : Int))
+        setI line i x) ((cols : Int) - 1) ((c : Int) + (k : Int)) line
+      (by rw [hangLimit_val]; omega) (by omega)
+      ⟨hlen, fun j => by
+        have : ¬ ((cols : Int) - 1 < (j : Int) ∧ j < cols) := by omega
+        rw [if_neg this]⟩
+      (by
+        intro i l hi0 hi1 ⟨hl, hP⟩
+        obtain ⟨x, hx⟩ := getElem?_some_of_lt line (i - (k : Int)).toNat (by omega)
+        have hlx : l[(i - (k : Int)).toNat]? = some x := by
+          rw [hP]
+          have : ¬ (i < (((i - (k : Int)).toNat : Nat) : Int) ∧ (i - (k : Int)).toNat < cols) := by omega
+          rw [if_neg this]; exact hx
+        rw [getI_some (by omega) hlx, exceptOk_bind, setI_ok l i x (by omega) (by omega)]
+        refine ⟨_, rfl, by simp [hl], ?_⟩
+        intro j
+        rw [List.getElem?_set]
+        by_cases hj : i.toNat = j
+        · have h1 : i.toNat < l.length := by omega
+          have h2 : i - 1 < (j : Int) ∧ j < cols := by omega
+          have h3 : j - k = (i - (k : Int)).toNat := by omega
+          rw [if_pos hj, if_pos h1, if_pos h2, h3, hx]
+        · rw [if_neg hj, hP]
+          by_cases h2 : i < (j : Int) ∧ j < cols
+          · have h3 : i - 1 < (j : Int) ∧ j < cols := by omega
+            rw [if_pos h2, if_pos h3]
+          · have h3 : ¬ (i - 1 < (j : Int) ∧ j < cols) := by omega
+            rw [if_neg h2, if_neg h3])
+    refine ⟨l1, h1, h2, ?_⟩
+    intro j
+    rw [h3]
+    by_cases h4 : c + k ≤ j ∧ j < cols
+    · have h5 : (c : Int) + (k : Int) - 1 < (j : Int) ∧ j < cols := by omega
+      rw [if_pos h4, if_pos h5]
+    · have h5 : ¬ ((c : Int) + (k : Int) - 1 < (j : Int) ∧ j < cols) := by omega
+      rw [if_neg h4, if_neg h5]
+  · refine ⟨line, forDown_empty _ _ _ _ (by omega), hlen, ?_⟩
+    intro j
+    have : ¬ (c + k ≤ j ∧ j < cols) := by omega
+    rw [if_neg this]
+
+/-- second loop of ich(): blanks at `col .. col+k-1`, stopping after the right margin -/
+theorem ich_loop2 (line1 : Row) (cols c k : Nat) (b : ECell)
+    (hlen : line1.length = cols) (hk : 1 ≤ k) (hk2 : k ≤ 65535) (hc : c < cols) :
+    ∃ line2, forUpBrk 0 ((k : Int) - 1) (fun i line =>
+        if (c : Int) + i > (cols : Int) - 1 then .ok (line, false)
+        else do
+          let l ← setI line ((c : Int) + i) b
+          .ok (l, true)) line1 = .ok line2 ∧ line2.length = cols ∧
+      ∀ j : Nat, line2[j]? = if c ≤ j ∧ j < c + k ∧ j < cols then some b else line1[j]? := by
+  obtain ⟨l2, h1, h2, h3⟩ := forUpBrk_ix'
+    (fun (i : Int) (l : Row) => l.length = cols ∧
+      ∀ j : Nat, l[j]? = if c ≤ j ∧ (j : Int) < (c : Int) + i ∧ j < cols then some b else line1[j]?)
+    (fun i line =>
+        if (c : Int) + i > (cols : Int) - 1 then .ok (line, false)
+        else do
+          let l ← setI line ((c : Int) + i) b
+          .ok (l, true)) 0 ((k : Int) - 1) line1 (by rw [hangLimit_val]; omega) (by omega)
+    ⟨hlen, fun j => by
+      have : ¬ (c ≤ j ∧ (j : Int) < (c : Int) + 0 ∧ j < cols) := by omega
+      rw [if_neg this]⟩
+    (by
+      intro i l hi0 hi1 ⟨hl, hP⟩
+      by_cases hb : (c : Int) + i > (cols : Int) - 1
+      · rw [if_pos hb]
+        refine ⟨_, rfl, fun hf => by simp at hf, fun _ => ⟨hl, ?_⟩⟩
+        intro j
+        rw [hP]
+        by_cases h4 : c ≤ j ∧ (j : Int) < (c : Int) + i ∧ j < cols
+        · have h5 : c ≤ j ∧ (j : Int) < (c : Int) + ((k : Int) - 1 + 1) ∧ j < cols := by omega
+          rw [if_pos h4, if_pos h5]
+        · have h5 : ¬ (c ≤ j ∧ (j : Int) < (c : Int) + ((k : Int) - 1 + 1) ∧ j < cols) := by omega
+          rw [if_neg h4, if_neg h5]
+      · rw [if_neg hb, setI_ok l _ b (by omega) (by omega), exceptOk_bind]
+        refine ⟨_, rfl, fun _ => ⟨by simp [hl], ?_⟩, fun hf => by simp at hf⟩
+        intro j
+        show (l.set ((c : Int) + i).toNat b)[j]? = _
+        rw [List.getElem?_set]
+        by_cases hj : ((c : Int) + i).toNat = j
+        · have h1 : ((c : Int) + i).toNat < l.length := by omega
+          have h2 : c ≤ j ∧ (j : Int) < (c : Int) + (i + 1) ∧ j < cols := by omega
+          rw [if_pos hj, if_pos h1, if_pos h2]
+        · rw [if_neg hj, hP]
+          by_cases h4 : c ≤ j ∧ (j : Int) < (c : Int) + i ∧ j < cols
+          · have h5 : c ≤ j ∧ (j : Int) < (c : Int) + (i + 1) ∧ j < cols := by omega
+            rw [if_pos h4, if_pos h5]
+          · have h5 : ¬ (c ≤ j ∧ (j : Int) < (c : Int) + (i + 1) ∧ j < cols) := by omega
+            rw [if_neg h4, if_neg h5])
+  refine ⟨l2, h1, h2, ?_⟩
+  intro j
+  rw [h3]
+  by_cases h4 : c ≤ j ∧ j < c + k ∧ j < cols
+  · have h5 : c ≤ j ∧ (j : Int) < (c : Int) + ((k : Int) - 1 + 1) ∧ j < cols := by omega
+    rw [if_pos h4, if_pos h5]
+  · have h5 : ¬ (c ≤ j ∧ (j : Int) < (c : Int) + ((k : Int) - 1 + 1) ∧ j < cols) := by omega
+    rw [if_neg h4, if_neg h5]
+
+
+/-- ich() of the current code, exactly: the cursor row becomes
+    `line[..col] ++ m erased blanks ++ line[col .. cols-m]`, `m = min k (cols - col)`. -/
+theorem ich_exact {e : Emu} {rows cols : Nat} (h : EmuInv e rows cols) (d : Dim rows cols)
+    (n : Int) (k c : Nat) (hn : dflt1 n = (k : Int)) (hcc : e.cur.col = (c : Int)) (hc : c < cols)
+    (hk1 : 1 ≤ k) (hk2 : k ≤ 65535) {line : Row}
+    (hrow : e.active[e.cur.row.toNat]? = some line) (hlen : line.length = cols) :
+    ∃ line2, ich Fixes.current e n = .ok (e.setActive (e.active.set e.cur.row.toNat line2)) ∧
+      line2.length = cols ∧
+      ∀ j : Nat, line2[j]? =
+        if j < c then line[j]? else if j < c + min k (cols - c) then some (({} : ECell).erase e.bg)
+        else if j < cols then line[j - min k (cols - c)]? else none := by
+  have hg := active_ok h
+  have := h.rowLo; have := h.rowHi
+  obtain ⟨line1, h1, hl1, hs1⟩ := ich_loop1 line cols c k hlen hk1 d.cmax
+  obtain ⟨line2, h2, hl2, hs2⟩ := ich_loop2 line1 cols c k (({} : ECell).erase e.bg) hl1 hk1 hk2 hc
+  refine ⟨line2, ?_, hl2, ?_⟩
+  · unfold ich
+    simp only [Fixes.current, Bool.not_true, Bool.false_and, Bool.false_eq_true, if_true, if_false,
+      decide_eq_true_eq, hn, hcc, h.right]
+    rw [getI_some h.rowLo hrow, exceptOk_bind, h1, exceptOk_bind, h2, exceptOk_bind,
+      setI_ok e.active _ _ h.rowLo (by rw [hg.len]; omega), exceptOk_bind]
+  · intro j
+    rw [hs2, hs1]
+    by_cases hj1 : j < c
+    · have h3 : ¬ (c ≤ j ∧ j < c + k ∧ j < cols) := by omega
+      have h4 : ¬ (c + k ≤ j ∧ j < cols) := by omega
+      rw [if_neg h3, if_neg h4, if_pos hj1]
+    · rw [if_neg hj1]
+      by_cases hj2 : j < c + min k (cols - c)
+      · have h3 : c ≤ j ∧ j < c + k ∧ j < cols := by omega
+        rw [if_pos h3, if_pos hj2]
+      · have h3 : ¬ (c ≤ j ∧ j < c + k ∧ j < cols) := by omega
+        rw [if_neg h3, if_neg hj2]
+        by_cases hj3 : j < cols
+        · have h4 : c + k ≤ j ∧ j < cols := by omega
+          have h5 : min k (cols - c) = k := by omega
+          rw [if_pos h4, if_pos hj3, h5]
+        · have h4 : ¬ (c + k ≤ j ∧ j < cols) := by omega
+          rw [if_neg h4, if_neg hj3]
+          exact List.getElem?_eq_none (by omega)
+
+
+/-! ### DCH, emulator side -/
+
+/-- the loop of dch(): `line[i] = line[i+k]` going up, erased cells once `i+k` is beyond the margin -/
+theorem dch_loop (g0 : Grid) (line : Row) (cols c k : Nat) (bg : Nat) (rowI col0 right nI : Int)
+    (h0 : 0 ≤ rowI) (hr : right = (cols : Int) - 1) (hc0 : col0 = (c : Int)) (hnI : nI = (k : Int))
+    (hrow : g0[rowI.toNat]? = some line) (hlen : line.length = cols) (hk : 1 ≤ k) (hc : c ≤ cols)
+    (hcm : cols ≤ 65535) :
+    ∃ ln, forUp col0 right (fun col g =>
+        if col + nI > right then modCell g rowI col (fun x => x.erase bg)
+        else do
+          let r ← getI g rowI
+          let x ← getI r (col + nI)
+          let r' ← setI r col x
+          setI g rowI r') g0 = .ok (g0.set rowI.toNat ln) ∧ ln.length = cols ∧
+      ∀ j : Nat, ln[j]? =
+        if c ≤ j ∧ j < cols then (if j + k < cols then line[j + k]? else (line[j]?).map (fun x => x.erase bg))
+        else line[j]? := by
+  subst hr hc0 hnI
+  have hrlt : rowI.toNat < g0.length := by
+    rcases Nat.lt_or_ge rowI.toNat g0.length with h1 | h1
+    · exact h1
+    · rw [List.getElem?_eq_none h1] at hrow; simp at hrow
+  obtain ⟨g1, h1, ln, hg1, hl, hP⟩ := forUp_ix'
+    (fun (i : Int) (g : Grid) => ∃ ln : Row, g = g0.set rowI.toNat ln ∧ ln.length = cols ∧
+      ∀ j : Nat, ln[j]? =
+        if c ≤ j ∧ (j : Int) < i then
+          (if j + k < cols then line[j + k]? else (line[j]?).map (fun x => x.erase bg))
+        else line[j]?)
+    (fun col g =>
+        if col + (k : Int) > (cols : Int) - 1 then modCell g rowI col (fun x => x.erase bg)
+        else do
+          let r ← getI g rowI
+          let x ← getI r (col + (k : Int))
+          let r' ← setI r col x
+          setI g rowI r') (c : Int) ((cols : Int) - 1) g0 (by rw [hangLimit_val]; omega) (by omega)
+    ⟨line, (list_set_self hrow).symm, hlen, fun j => by
+      have : ¬ (c ≤ j ∧ (j : Int) < (c : Int)) := by omega
+      rw [if_neg this]⟩
+    (by
+      intro i g hi0 hi1 ⟨ln, hg, hl, hP⟩
+      subst hg
+      have hgr : (g0.set rowI.toNat ln)[rowI.toNat]? = some ln := by
+        rw [List.getElem?_set]; simp [hrlt]
+      have hstep : ∀ (x : ECell), (ln.set i.toNat x).length = cols := fun x => by simp [hl]
+      have hnew : ∀ (x : ECell),
+          (if i.toNat + k < cols then line[i.toNat + k]? else (line[i.toNat]?).map (fun x => x.erase bg)) = some x →
+          ∀ j : Nat, (ln.set i.toNat x)[j]? =
+            if c ≤ j ∧ (j : Int) < i + 1 then
+              (if j + k < cols then line[j + k]? else (line[j]?).map (fun x => x.erase bg))
+            else line[j]? := by
+        intro x hx j
+        rw [List.getElem?_set]
+        by_cases hj : i.toNat = j
+        · have h1 : i.toNat < ln.length := by omega
+          have h2 : c ≤ j ∧ (j : Int) < i + 1 := by omega
+          rw [if_pos hj, if_pos h1, if_pos h2, ← hj, hx]
+        · rw [if_neg hj, hP]
+          by_cases h4 : c ≤ j ∧ (j : Int) < i
+          · have h5 : c ≤ j ∧ (j : Int) < i + 1 := by omega
+            rw [if_pos h4, if_pos h5]
+          · have h5 : ¬ (c ≤ j ∧ (j : Int) < i + 1) := by omega
+            rw [if_neg h4, if_neg h5]
+      by_cases hb : i + (k : Int) > (cols : Int) - 1
+      · rw [if_pos hb]
+        obtain ⟨x, hx⟩ := getElem?_some_of_lt line i.toNat (by omega)
+        have hlx : ln[i.toNat]? = some x := by
+          rw [hP]
+          have : ¬ (c ≤ i.toNat ∧ ((i.toNat : Nat) : Int) < i) := by omega
+          rw [if_neg this]; exact hx
+        rw [modCell_eq rowI i _ h0 (by omega) hgr hlx, List.set_set]
+        refine ⟨_, rfl, _, rfl, hstep _, hnew _ ?_⟩
+        have : ¬ (i.toNat + k < cols) := by omega
+        rw [if_neg this, hx]; rfl
+      · rw [if_neg hb]
+        obtain ⟨x, hx⟩ := getElem?_some_of_lt line (i.toNat + k) (by omega)
+        have hik : (i + (k : Int)).toNat = i.toNat + k := by omega
+        have hlx : ln[(i + (k : Int)).toNat]? = some x := by
+          rw [hik, hP]
+          have : ¬ (c ≤ i.toNat + k ∧ ((i.toNat + k : Nat) : Int) < i) := by omega
+          rw [if_neg this]; exact hx
+        rw [getI_some h0 hgr, exceptOk_bind, getI_some (by omega) hlx, exceptOk_bind,
+          setI_ok ln i x (by omega) (by omega), exceptOk_bind,
+          setI_ok _ rowI _ h0 (by simp; omega), List.set_set]
+        refine ⟨_, rfl, _, rfl, hstep _, hnew _ ?_⟩
+        have : i.toNat + k < cols := by omega
+        rw [if_pos this, hx])
+  subst hg1
+  refine ⟨ln, h1, hl, ?_⟩
+  intro j
+  rw [hP]
+  by_cases h4 : c ≤ j ∧ j < cols
+  · have h5 : c ≤ j ∧ (j : Int) < (cols : Int) - 1 + 1 := by omega
+    rw [if_pos h4, if_pos h5]
+  · have h5 : ¬ (c ≤ j ∧ (j : Int) < (cols : Int) - 1 + 1) := by omega
+    rw [if_neg h4, if_neg h5]
+
+/-- dch(), exactly: the abstraction of the cursor row becomes
+    `row[..col] ++ row[col+m..] ++ m blanks`, `m = min k (cols - col)`. -/
+theorem dch_exact {e : Emu} {rows cols : Nat} (h : EmuInv e rows cols) (d : Dim rows cols)
+    (n : Int) (k c : Nat) (hn : dflt1 n = (k : Int)) (hcc : e.cur.col = (c : Int)) (hc : c < cols)
+    (hk1 : 1 ≤ k) {line : Row}
+    (hrow : e.active[e.cur.row.toNat]? = some line) (hlen : line.length = cols) :
+    ∃ ln, dch e n = .ok (({ e with lastCol := false } : Emu).setActive (e.active.set e.cur.row.toNat ln)) ∧
+      ln.length = cols ∧
+      ∀ j : Nat, (ln[j]?).map absCell =
+        if j < c then (line[j]?).map absCell
+        else if j + min k (cols - c) < cols then (line[j + min k (cols - c)]?).map absCell
+        else if j < cols then some (.blank (absCol e.bg)) else none := by
+  obtain ⟨ln, h1, hl, hs⟩ := dch_loop e.active line cols c k e.bg e.cur.row e.cur.col e.right (dflt1 n)
+    h.rowLo h.right hcc hn hrow hlen hk1 (by omega) d.cmax
+  refine ⟨ln, ?_, hl, ?_⟩
+  · unfold dch
+    show (forUp e.cur.col e.right (fun col g =>
+        if col + dflt1 n > e.right then modCell g e.cur.row col (fun x => x.erase e.bg)
+        else do
+          let r ← getI g e.cur.row
+          let x ← getI r (col + dflt1 n)
+          let r' ← setI r col x
+          setI g e.cur.row r') e.active >>= fun g =>
+        Except.ok (({ e with lastCol := false } : Emu).setActive g)) = _
+    rw [h1, exceptOk_bind]
+  · intro j
+    rw [hs]
+    by_cases hj1 : j < c
+    · have h3 : ¬ (c ≤ j ∧ j < cols) := by omega
+      rw [if_neg h3, if_pos hj1]
+    · rw [if_neg hj1]
+      by_cases hj3 : j < cols
+      · have h3 : c ≤ j ∧ j < cols := by omega
+        rw [if_pos h3]
+        by_cases hj2 : j + k < cols
+        · have h5 : min k (cols - c) = k := by omega
+          rw [if_pos hj2, h5, if_pos hj2]
+        · have h5 : ¬ (j + min k (cols - c) < cols) := by omega
+          rw [if_neg hj2, if_neg h5, if_pos hj3]
+          obtain ⟨x, hx⟩ := getElem?_some_of_lt line j (by omega)
+          rw [hx]
+          simp only [Option.map_some, absCell_erase]
+      · have h3 : ¬ (c ≤ j ∧ j < cols) := by omega
+        have h5 : ¬ (j + min k (cols - c) < cols) := by omega
+        rw [if_neg h3, if_neg h5, if_neg hj3, List.getElem?_eq_none (by omega)]
+        rfl
+
 end VaxisModel.Lemmas.EmuRefine.PrintAux
 
 namespace VaxisModel.Lemmas.EmuRefine
@@ -343,5 +894,533 @@ theorem printK1_narrow_sim {t : Term.T} {e : Emu} {rows cols : Nat} (s : Sim t e
     split at hl
     · simp; omega
     · simp at hl
+
+
+/-- Wide glyph that fits, after the wrap decision. -/
+theorem printK1_wide_sim {t : Term.T} {e : Emu} {rows cols : Nat} (s : Sim t e rows cols)
+    (hp : t.pw = false) (hlc : e.lastCol = false) (hfit : e.cur.col + 1 < cols) (g : G) (hg : g ≠ []) :
+    ∃ e', printK1 g 2 e = .ok e' ∧ Sim (wideCore t g) e' rows cols ∧ LastColOk e' cols := by
+  have hc := col_lt_of_not_pw s hp
+  have htc := tcol_eq s hp
+  have hrow0 := s.inv.rowLo; have hrow1 := s.inv.rowHi; have hcol0 := s.inv.colLo
+  have htr : t.row = e.cur.row.toNat := by have := s.row; omega
+  have htcn : t.col = e.cur.col.toNat := by omega
+  obtain ⟨row, hrow, hlen⟩ := row_at (active_ok s.inv) e.cur.row.toNat (by omega)
+  have hxlt : e.cur.col.toNat + 1 < row.length := by omega
+  have hx : row[e.cur.col.toNat + 1]? = some row[e.cur.col.toNat + 1] := List.getElem?_eq_getElem hxlt
+  generalize row[e.cur.col.toNat + 1] = x at hx
+  have hg1 : GridOk (e.active.set e.cur.row.toNat
+      ((row.set e.cur.col.toNat { g := g, w := 2, st := e.cur.st }).set (e.cur.col.toNat + 1)
+          { x with g := [32], st := e.cur.st })) rows cols :=
+    gridOk_set (active_ok s.inv) _ _ (by simp [hlen])
+  have hacc : Term.gridAccepts
+      (t.grid.modify t.row (fun r => Term.healRow
+        ((r.set t.col (.glyph g 2 t.pen t.link)).set (t.col + 1) .cont)))
+      ((e.active.set e.cur.row.toNat
+        ((row.set e.cur.col.toNat { g := g, w := 2, st := e.cur.st }).set (e.cur.col.toNat + 1)
+          { x with g := [32], st := e.cur.st })).map absRow) = true := by
+    rw [htr]
+    refine gridAccepts_modify_set s.grid _ _ _ ?_
+    intro trow row0 _ hr0 hra
+    rw [hrow] at hr0
+    obtain rfl : row = row0 := by simpa using hr0
+    refine healRow_accepts _ _ ?_
+    unfold absRow
+    rw [List.map_set, List.map_set, htcn]
+    refine rowAccepts_set (rowAccepts_set hra _ _ _ ?_) _ _ _ (accepts_cont _)
+    rw [absCell_glyph g 2 _ hg, s.pen, s.link]
+    exact accepts_self _
+  have hawm : (e.setActive (e.active.set e.cur.row.toNat
+      ((row.set e.cur.col.toNat { g := g, w := 2, st := e.cur.st }).set (e.cur.col.toNat + 1)
+          { x with g := [32], st := e.cur.st }))).mode.decawm = true := by
+    simpa using s.vm.awm
+  have hright : (e.setActive (e.active.set e.cur.row.toNat
+      ((row.set e.cur.col.toNat { g := g, w := 2, st := e.cur.st }).set (e.cur.col.toNat + 1)
+          { x with g := [32], st := e.cur.st }))).right = (cols : Int) - 1 := by
+    simpa using s.inv.right
+  have hle : (e.setActive (e.active.set e.cur.row.toNat
+      ((row.set e.cur.col.toNat { g := g, w := 2, st := e.cur.st }).set (e.cur.col.toNat + 1)
+          { x with g := [32], st := e.cur.st }))).cur.col + ((2 : Nat) : Int) ≤ cols := by
+    simp; omega
+  have key := sim_setGridCol s _ _ hg1 hacc
+  refine ⟨_, (printK1_wide s.inv s.dim s.vm.irm hfit g hrow hlen hx).trans
+    (congrArg Except.ok (printAdvance_eq _ 2 cols hawm hright hle)), ?_, ?_⟩
+  · rw [wideCore_eq]
+    have hcs := s.tcols
+    by_cases h1 : t.col + 2 = t.cols
+    · rw [if_pos h1]
+      refine key (t.col + 1) true _ _ ?_ ?_ ?_ ?_
+      · simp; omega
+      · simp; omega
+      · simp; split <;> omega
+      · simp; omega
+    · rw [if_neg h1]
+      refine key (t.col + 2) (Term.T.setGrid t _).pw _ _ ?_ ?_ ?_ ?_
+      · simp; omega
+      · simp; omega
+      · simp; split <;> omega
+      · rw [setGrid_pw, hp]; simp; omega
+  · intro hl
+    simp only [setActive_cur, setActive_lastCol, hlc] at hl ⊢
+    split at hl
+    · simp; omega
+    · simp at hl
+
+theorem lastCol_false_of_not_pw {t : Term.T} {e : Emu} {rows cols : Nat} (s : Sim t e rows cols)
+    (hl : LastColOk e cols) (hp : t.pw = false) : e.lastCol = false := by
+  have hc := col_lt_of_not_pw s hp
+  cases h : e.lastCol with
+  | false => rfl
+  | true => have := hl h; omega
+
+/-- In the modes of the vocabulary `print` starts at the autowrap phase with the glyph unchanged. -/
+theorem print_eq_K0 {t : Term.T} {e : Emu} {rows cols : Nat} (s : Sim t e rows cols) (g : G) (w : Nat) :
+    print Fixes.current e g w = printK0 g w e := by
+  rw [print_eq]
+  have h1 : printPre e = e := by unfold printPre; simp [s.vm.noShift]
+  have h2 : printGlyph e g = g := by
+    unfold printGlyph
+    split
+    · simp [s.vm.ascii]
+    · rfl
+  rw [h1, h2]
+
+/-- no autowrap: the flag is clear and the glyph fits -/
+theorem print_eq_K1 {t : Term.T} {e : Emu} {rows cols : Nat} (s : Sim t e rows cols) (g : G) (w : Nat)
+    (hlc : e.lastCol = false) (hfit : e.cur.col + (w : Int) ≤ cols) :
+    print Fixes.current e g w = printK1 g w e := by
+  rw [print_eq_K0 s]
+  unfold printK0
+  have hr := s.inv.right
+  have : ¬ (e.cur.col + (w : Int) - 1 > e.right) := by omega
+  simp [hlc, this]
+
+/-- A. narrow glyph, no pending wrap. -/
+theorem print_narrow_nowrap {t : Term.T} {e : Emu} {rows cols : Nat} (s : Sim t e rows cols)
+    (hl : LastColOk e cols) (hp : t.pw = false) (g : G) (hg : g ≠ []) :
+    ∃ e', print Fixes.current e g 1 = .ok e' ∧ Refines (Term.step t (.print g 1)) e' rows cols ∧
+      LastColOk e' cols := by
+  have hlc := lastCol_false_of_not_pw s hl hp
+  have hc := col_lt_of_not_pw s hp
+  obtain ⟨e', he', hs', hl'⟩ := printK1_narrow_sim s hp hlc g hg
+  refine ⟨e', by rw [print_eq_K1 s g 1 hlc (by omega)]; exact he', ?_, hl'⟩
+  have : Term.step t (.print g 1) = Term.one (narrowCore t g) := by
+    simp only [Term.step, if_true, writeNarrow_eq, hp, Bool.false_eq_true, if_false]
+  rw [this]
+  exact refines_one hs'
+
+
+/-- A. wide glyph that fits (not in the last column), no pending wrap. -/
+theorem print_wide_nowrap {t : Term.T} {e : Emu} {rows cols : Nat} (s : Sim t e rows cols)
+    (hl : LastColOk e cols) (hp : t.pw = false) (hfit : e.cur.col + 1 < cols) (g : G) (hg : g ≠ []) :
+    ∃ e', print Fixes.current e g 2 = .ok e' ∧ Refines (Term.step t (.print g 2)) e' rows cols ∧
+      LastColOk e' cols := by
+  have hlc := lastCol_false_of_not_pw s hl hp
+  have htc := tcol_eq s hp
+  have hcs := s.tcols
+  obtain ⟨e', he', hs', hl'⟩ := printK1_wide_sim s hp hlc hfit g hg
+  refine ⟨e', by rw [print_eq_K1 s g 2 hlc (by omega)]; exact he', ?_, hl'⟩
+  have h2 : t.cols ≥ 2 := by have := s.inv.colLo; omega
+  have h3 : ¬ (t.pw = true ∨ t.col + 1 = t.cols) := by
+    rw [hp]; simp; omega
+  have : Term.step t (.print g 2) = Term.one (wideCore t g) := by
+    simp only [Term.step, writeWide_eq, if_neg h3, h2, if_true]
+    simp
+  rw [this]
+  exact refines_one hs'
+
+
+/-! ### B. autowrap -/
+
+/-- HYPOTHESIS of the wrapping lemmas: the refinement of NEL (IND, then column 0) for all related
+    states, including those in the pending-wrap state (where `Term.step t .nel` is unconstrained):
+    the emulator's `nel` succeeds and its result is simulated by
+    `wrapT t = { ({ t with col := 0, pw := false } : T).indCore with pw := false }`, the state in which
+    `T.writeNarrow` / `T.writeWide` write after an autowrap. -/
+def NelHyp (rows cols : Nat) : Prop :=
+  ∀ (t1 : Term.T) (e1 : Emu), Sim t1 e1 rows cols →
+    ∃ e2, nel e1 = .ok e2 ∧ Sim (wrapT t1) e2 rows cols
+
+/-- The statement of the refinement of IND in every state (also pending wrap), as proved in
+    `Lemmas/EmuRefineScroll.lean` (`ind_sim`). -/
+def IndHyp (rows cols : Nat) : Prop :=
+  ∀ (t1 : Term.T) (e1 : Emu), Sim t1 e1 rows cols →
+    ∃ e2, ind e1 = .ok e2 ∧ Sim t1.indCore e2 rows cols
+
+theorem wrapT_eq (t : Term.T) : wrapT t = { t.indCore with col := 0, pw := false } := by
+  unfold wrapT Term.T.indCore Term.T.scrollUp Term.T.setGrid Term.T.grid Term.T.blankRow Term.T.blank
+  simp only
+  split
+  · split <;> rfl
+  · split <;> rfl
+
+/-- `NelHyp` follows from the refinement of IND. -/
+theorem nelHyp_of_ind {rows cols : Nat} (h : IndHyp rows cols) : NelHyp rows cols := by
+  intro t1 e1 s1
+  obtain ⟨e2, he2, s2⟩ := h t1 e1 s1
+  have hl := s2.inv.left0
+  have hc1 := s2.dim.c1
+  refine ⟨{ e2 with cur := { e2.cur with col := e2.left } }, by unfold nel; rw [he2]; rfl, ?_⟩
+  rw [wrapT_eq]
+  exact sim_setCol s2 0 false e2.left e2.lastCol (by omega) (by omega)
+    (by split <;> omega) (by symm; rw [decide_eq_false_iff_not]; omega)
+
+/-- Clearing `lastCol` and marking the last cell of the cursor row `wrapped` keeps `Sim`. -/
+theorem sim_markWrapped {t : Term.T} {e : Emu} {rows cols : Nat} (s : Sim t e rows cols) :
+    ∃ g', modCell e.active e.cur.row (({ e with lastCol := false } : Emu).width - 1)
+        (fun c => { c with wrapped := true }) = .ok g' ∧
+      Sim t (({ e with lastCol := false } : Emu).setActive g') rows cols := by
+  have hw : ({ e with lastCol := false } : Emu).width = cols := width_eq (inv_lastCol s.inv false) s.dim.r1
+  have hrow0 := s.inv.rowLo; have hrow1 := s.inv.rowHi; have hc1 := s.dim.c1
+  obtain ⟨row, hrow, hlen⟩ := row_at (active_ok s.inv) e.cur.row.toNat (by omega)
+  have hxlt : ((cols : Int) - 1).toNat < row.length := by omega
+  have hx : row[((cols : Int) - 1).toNat]? = some row[((cols : Int) - 1).toNat] :=
+    List.getElem?_eq_getElem hxlt
+  generalize row[((cols : Int) - 1).toNat] = x at hx
+  rw [hw, modCell_eq _ _ _ hrow0 (by omega) hrow hx]
+  refine ⟨_, rfl, ?_⟩
+  have s0 : Sim t { e with lastCol := false } rows cols :=
+    sim_setCol s t.col t.pw e.cur.col false s.inv.colLo s.inv.colHi s.col s.pw
+  have hg' : GridOk (e.active.set e.cur.row.toNat
+      (row.set ((cols : Int) - 1).toNat { x with wrapped := true })) rows cols :=
+    gridOk_set (active_ok s.inv) _ _ (by simp [hlen])
+  have hacc : Term.gridAccepts t.grid ((e.active.set e.cur.row.toNat
+      (row.set ((cols : Int) - 1).toNat { x with wrapped := true })).map absRow) = true := by
+    rw [List.map_set, absRow_wrapped hx, list_set_self (by simp [hrow])]
+    exact s.grid
+  have := sim_setGrid s0 t.grid _ hg' hacc
+    (({ e with lastCol := false } : Emu).setActive (e.active.set e.cur.row.toNat
+      (row.set ((cols : Int) - 1).toNat { x with wrapped := true }))).lastCol
+  rw [setGrid_self] at this
+  exact this
+
+/-- The autowrap phase of `print`: the emulator marks the line as wrapped and performs NEL; the
+    rest of `print` runs from a state related to the reference's wrapped state. -/
+theorem print_wrap_phase {t : Term.T} {e : Emu} {rows cols : Nat} (s : Sim t e rows cols)
+    (hnel : NelHyp rows cols) (g : G) (w : Nat)
+    (hwrap : e.lastCol = true ∨ (cols : Int) < e.cur.col + (w : Int)) :
+    ∃ e2, Sim (wrapT t) e2 rows cols ∧ e2.lastCol = false ∧
+      print Fixes.current e g w = printK1 g w e2 := by
+  obtain ⟨g', hg', s1⟩ := sim_markWrapped s
+  obtain ⟨e2, he2, s2⟩ := hnel _ _ s1
+  refine ⟨e2, s2, nel_lastCol he2, ?_⟩
+  rw [print_eq_K0 s]
+  unfold printK0
+  have hr := s.inv.right
+  have hcond : ((e.lastCol || decide (e.cur.col + (w : Int) - 1 > e.right)) && e.mode.decawm) = true := by
+    rw [s.vm.awm, Bool.and_true, Bool.or_eq_true, decide_eq_true_eq]
+    rcases hwrap with h | h
+    · exact Or.inl h
+    · exact Or.inr (by omega)
+  rw [if_pos hcond]
+  show (modCell e.active e.cur.row (({ e with lastCol := false } : Emu).width - 1)
+    (fun c => { c with wrapped := true }) >>= fun g' =>
+      nel (({ e with lastCol := false } : Emu).setActive g') >>= fun e1 => printK1 g w e1) = _
+  rw [hg', exceptOk_bind, he2, exceptOk_bind]
+
+/-- B. narrow glyph in the pending-wrap state. -/
+theorem print_narrow_wrap {t : Term.T} {e : Emu} {rows cols : Nat} (s : Sim t e rows cols)
+    (hnel : NelHyp rows cols) (hp : t.pw = true) (g : G) (hg : g ≠ []) :
+    ∃ e', print Fixes.current e g 1 = .ok e' ∧ Refines (Term.step t (.print g 1)) e' rows cols ∧
+      LastColOk e' cols := by
+  have hcol : (cols : Int) ≤ e.cur.col := by
+    have := s.pw; rw [hp] at this; simpa using this.symm
+  obtain ⟨e2, s2, hlc2, hpr⟩ := print_wrap_phase s hnel g 1 (Or.inr (by omega))
+  obtain ⟨e', he', hs', hl'⟩ := printK1_narrow_sim s2 (wrapT_pw t) hlc2 g hg
+  refine ⟨e', by rw [hpr]; exact he', ?_, hl'⟩
+  have : Term.step t (.print g 1) = Term.one (narrowCore (wrapT t) g) := by
+    simp only [Term.step, if_true, writeNarrow_eq, hp]
+  rw [this]
+  exact refines_one hs'
+
+/-- B. wide glyph in the pending-wrap state or in the last column (screens of at least 2 columns). -/
+theorem print_wide_wrap {t : Term.T} {e : Emu} {rows cols : Nat} (s : Sim t e rows cols)
+    (hnel : NelHyp rows cols) (h2 : 2 ≤ cols) (hw : (cols : Int) ≤ e.cur.col + 1) (g : G) (hg : g ≠ []) :
+    ∃ e', print Fixes.current e g 2 = .ok e' ∧ Refines (Term.step t (.print g 2)) e' rows cols ∧
+      LastColOk e' cols := by
+  obtain ⟨e2, s2, hlc2, hpr⟩ := print_wrap_phase s hnel g 2 (Or.inr (by omega))
+  have hc2 : e2.cur.col = 0 := by
+    have h1 := tcol_eq s2 (wrapT_pw t)
+    rw [wrapT_col] at h1
+    omega
+  obtain ⟨e', he', hs', hl'⟩ := printK1_wide_sim s2 (wrapT_pw t) hlc2 (by omega) g hg
+  refine ⟨e', by rw [hpr]; exact he', ?_, hl'⟩
+  have hcs := s.tcols
+  have h3 : t.pw = true ∨ t.col + 1 = t.cols := by
+    cases hpw : t.pw with
+    | true => exact Or.inl rfl
+    | false =>
+      have := tcol_eq s hpw
+      exact Or.inr (by have := col_lt_of_not_pw s hpw; omega)
+  have : Term.step t (.print g 2) = Term.one (wideCore (wrapT t) g) := by
+    simp only [Term.step, writeWide_eq, if_pos h3]
+    have : t.cols ≥ 2 := by omega
+    simp [this]
+  rw [this]
+  exact refines_one hs'
+
+/-- A wide glyph on a 1-column screen: the reference does not constrain the result; the emulator
+    does not fail. -/
+theorem print_wide_cols1 {t : Term.T} {e : Emu} {rows : Nat} (s : Sim t e rows 1) (g : G) :
+    ∃ e', print Fixes.current e g 2 = .ok e' ∧ Refines (Term.step t (.print g 2)) e' rows 1 := by
+  obtain ⟨e', he', _⟩ := print_safe s.inv s.dim g 2
+  refine ⟨e', he', ?_⟩
+  have : Term.step t (.print g 2) = .unconstrained := by
+    simp [Term.step, s.tcols]
+  rw [this]
+  trivial
+
+
+/-! ### C. ICH / DCH -/
+
+/-- the parameter as csi() hands it to the handler -/
+def cpP (n : Nat) : Int := clampParam (n : Int)
+
+theorem cpP_ok (n : Nat) : POk (cpP n) := by
+  unfold cpP clampParam maxParam POk; split <;> omega
+
+/-- The emulator's count (`dflt1` of the clamped parameter) and the reference's (`d1 n`) cut off
+    at anything up to 65535 alike. -/
+theorem dflt1_cpP (n : Nat) : ∃ k : Nat, dflt1 (cpP n) = (k : Int) ∧ 1 ≤ k ∧ k ≤ 65535 ∧
+    ∀ x : Nat, x ≤ 65535 → min (Term.d1 n) x = min k x := by
+  unfold cpP clampParam maxParam dflt1 Term.d1
+  by_cases h0 : n = 0
+  · subst h0
+    exact ⟨1, by simp, by omega, by omega, fun x _ => by simp⟩
+  · by_cases h1 : n ≤ 65535
+    · refine ⟨n, ?_, by omega, h1, fun x _ => by simp [h0]⟩
+      have : ¬ ((n : Int) < 0 ∨ (n : Int) > 65535) := by omega
+      rw [if_neg this, if_neg (by omega)]
+    · refine ⟨65535, ?_, by omega, by omega, fun x hx => by simp [h0]; omega⟩
+      have : (n : Int) < 0 ∨ (n : Int) > 65535 := by omega
+      rw [if_pos this]; simp
+
+theorem ich_refines {t : Term.T} {e : Emu} {rows cols : Nat} (s : Sim t e rows cols) (n : Nat) :
+    ∃ e', ich Fixes.current e (cpP n) = .ok e' ∧ Refines (Term.step t (.ich n)) e' rows cols := by
+  cases hp : t.pw with
+  | true =>
+    obtain ⟨e', he', _⟩ := ich_safe s.inv s.dim (cpP_ok n)
+    refine ⟨e', he', ?_⟩
+    simp only [Term.step]
+    exact refines_unlessPw (fun h => by rw [hp] at h; cases h)
+  | false =>
+    have hc := col_lt_of_not_pw s hp
+    have htc := tcol_eq s hp
+    have hrow0 := s.inv.rowLo; have hrow1 := s.inv.rowHi; have hcol0 := s.inv.colLo
+    have hcm := s.dim.cmax
+    have htr : t.row = e.cur.row.toNat := by have := s.row; omega
+    have hcc : e.cur.col = ((t.col : Nat) : Int) := by omega
+    have hcs := s.tcols
+    obtain ⟨k, hk, hk1, hk2, hmin⟩ := dflt1_cpP n
+    obtain ⟨line, hrow, hlen⟩ := row_at (active_ok s.inv) e.cur.row.toNat (by omega)
+    obtain ⟨line2, hich, hl2, hs2⟩ := ich_exact s.inv s.dim (cpP n) k t.col hk hcc (by omega) hk1 hk2 hrow hlen
+    refine ⟨_, hich, ?_⟩
+    simp only [Term.step]
+    refine refines_unlessPw (fun _ => refines_one ?_)
+    unfold Term.T.modRow
+    refine sim_setGrid s _ _ (gridOk_set (active_ok s.inv) _ _ hl2) ?_
+      (e.setActive (e.active.set e.cur.row.toNat line2)).lastCol
+    rw [htr]
+    refine gridAccepts_modify_set s.grid _ _ _ ?_
+    intro trow row0 _ hr0 hra
+    rw [hrow] at hr0
+    obtain rfl : line = row0 := by simpa using hr0
+    refine healRow_accepts _ _ ?_
+    obtain ⟨htl, hidx⟩ := (rowAccepts_iff _ _).mp hra
+    have htl' : trow.length = cols := by rw [htl]; unfold absRow; simp [hlen]
+    rw [hcs, hmin (cols - t.col) (by omega)]
+    have hcmle : t.col + min k (cols - t.col) ≤ cols := by omega
+    rw [rowAccepts_iff]
+    refine ⟨?_, ?_⟩
+    · unfold absRow
+      simp only [List.length_append, List.length_take, List.length_replicate, List.length_drop,
+        List.length_map, htl', hl2]
+      omega
+    · intro i x y hx hy
+      rw [ins_getElem? trow t.col _ cols t.blank htl' hcmle i] at hx
+      unfold absRow at hy hidx
+      rw [List.getElem?_map, hs2] at hy
+      by_cases hj1 : i < t.col
+      · rw [if_pos hj1] at hx hy
+        exact hidx i x y hx (by rw [List.getElem?_map]; exact hy)
+      · rw [if_neg hj1] at hx hy
+        by_cases hj2 : i < t.col + min k (cols - t.col)
+        · rw [if_pos hj2] at hx hy
+          simp only [Option.map_some, Option.some.injEq] at hx hy
+          subst hx; subst hy
+          rw [blank_eq s]
+          exact accepts_blank_erase _ _
+        · rw [if_neg hj2] at hx hy
+          by_cases hj3 : i < cols
+          · rw [if_pos hj3] at hx hy
+            exact hidx _ x y hx (by rw [List.getElem?_map]; exact hy)
+          · rw [if_neg hj3] at hx
+            cases hx
+
+
+theorem dch_refines {t : Term.T} {e : Emu} {rows cols : Nat} (s : Sim t e rows cols) (n : Nat) :
+    ∃ e', dch e (cpP n) = .ok e' ∧ Refines (Term.step t (.dch n)) e' rows cols := by
+  cases hp : t.pw with
+  | true =>
+    obtain ⟨e', he', _⟩ := dch_safe s.inv s.dim (cpP_ok n)
+    refine ⟨e', he', ?_⟩
+    simp only [Term.step]
+    exact refines_unlessPw (fun h => by rw [hp] at h; cases h)
+  | false =>
+    have hc := col_lt_of_not_pw s hp
+    have htc := tcol_eq s hp
+    have hrow0 := s.inv.rowLo; have hrow1 := s.inv.rowHi; have hcol0 := s.inv.colLo
+    have hcm := s.dim.cmax
+    have htr : t.row = e.cur.row.toNat := by have := s.row; omega
+    have hcc : e.cur.col = ((t.col : Nat) : Int) := by omega
+    have hcs := s.tcols
+    obtain ⟨k, hk, hk1, hk2, hmin⟩ := dflt1_cpP n
+    obtain ⟨line, hrow, hlen⟩ := row_at (active_ok s.inv) e.cur.row.toNat (by omega)
+    obtain ⟨ln, hdch, hl2, hs2⟩ := dch_exact s.inv s.dim (cpP n) k t.col hk hcc (by omega) hk1 hrow hlen
+    refine ⟨_, hdch, ?_⟩
+    simp only [Term.step]
+    refine refines_unlessPw (fun _ => refines_one ?_)
+    unfold Term.T.modRow
+    have s0 : Sim t { e with lastCol := false } rows cols :=
+      sim_setCol s t.col t.pw e.cur.col false s.inv.colLo s.inv.colHi s.col s.pw
+    refine sim_setGrid s0 _ _ (gridOk_set (active_ok s.inv) _ _ hl2) ?_
+      (({ e with lastCol := false } : Emu).setActive (e.active.set e.cur.row.toNat ln)).lastCol
+    rw [htr]
+    refine gridAccepts_modify_set s.grid _ _ _ ?_
+    intro trow row0 _ hr0 hra
+    rw [hrow] at hr0
+    obtain rfl : line = row0 := by simpa using hr0
+    refine healRow_accepts _ _ ?_
+    obtain ⟨htl, hidx⟩ := (rowAccepts_iff _ _).mp hra
+    have htl' : trow.length = cols := by rw [htl]; unfold absRow; simp [hlen]
+    rw [hcs, hmin (cols - t.col) (by omega)]
+    have hcmle : t.col + min k (cols - t.col) ≤ cols := by omega
+    rw [rowAccepts_iff]
+    refine ⟨?_, ?_⟩
+    · unfold absRow
+      simp only [List.length_append, List.length_take, List.length_replicate, List.length_drop,
+        List.length_map, htl', hl2]
+      omega
+    · intro i x y hx hy
+      rw [del_getElem? trow t.col _ cols t.blank htl' hcmle i] at hx
+      unfold absRow at hy hidx
+      rw [List.getElem?_map, hs2] at hy
+      by_cases hj1 : i < t.col
+      · rw [if_pos hj1] at hx hy
+        exact hidx i x y hx (by rw [List.getElem?_map]; exact hy)
+      · rw [if_neg hj1] at hx hy
+        by_cases hj2 : i + min k (cols - t.col) < cols
+        · rw [if_pos hj2] at hx hy
+          exact hidx _ x y hx (by rw [List.getElem?_map]; exact hy)
+        · rw [if_neg hj2] at hx hy
+          by_cases hj3 : i < cols
+          · rw [if_pos hj3] at hx hy
+            simp only [Option.some.injEq] at hx hy
+            subst hx; subst hy
+            rw [blank_eq s]
+            simp [Term.TCell.accepts]
+          · rw [if_neg hj3] at hx
+            cases hx
+
+
+/-! ### `LastColOk` across ICH / DCH -/
+
+theorem ich_lastColOk {e e' : Emu} {n : Int} {cols : Nat} (h : ich Fixes.current e n = .ok e')
+    (hl : LastColOk e cols) : LastColOk e' cols := by
+  unfold ich at h
+  simp only [bind, Except.bind] at h
+  repeat (split at h; · simp at h)
+  simp only [Except.ok.injEq] at h
+  subst h
+  unfold LastColOk at *
+  simpa using hl
+
+theorem dch_lastColOk {e e' : Emu} {n : Int} {cols : Nat} (h : dch e n = .ok e') : LastColOk e' cols := by
+  unfold dch at h
+  simp only [bind, Except.bind] at h
+  split at h
+  · simp at h
+  · simp only [Except.ok.injEq] at h
+    subst h
+    intro hl
+    simp at hl
+
+/-! ### PRINT, all cases -/
+
+/-- `print` of any non-empty glyph of any width, in any related state: the emulator does not fail
+    and refines the reference (under the refinement of NEL for the wrapping cases). `LastColOk` is
+    re-established whenever the reference constrains the result. -/
+theorem print_refines {t : Term.T} {e : Emu} {rows cols : Nat} (s : Sim t e rows cols)
+    (hl : LastColOk e cols) (hnel : NelHyp rows cols) (g : G) (hg : g ≠ []) (w : Nat) :
+    ∃ e', print Fixes.current e g w = .ok e' ∧ Refines (Term.step t (.print g w)) e' rows cols ∧
+      ((w = 1 ∨ (w = 2 ∧ 2 ≤ cols)) → LastColOk e' cols) := by
+  by_cases h1 : w = 1
+  · subst h1
+    cases hp : t.pw with
+    | false =>
+      obtain ⟨e', a, b, c⟩ := print_narrow_nowrap s hl hp g hg
+      exact ⟨e', a, b, fun _ => c⟩
+    | true =>
+      obtain ⟨e', a, b, c⟩ := print_narrow_wrap s hnel hp g hg
+      exact ⟨e', a, b, fun _ => c⟩
+  · by_cases h2 : w = 2
+    · subst h2
+      by_cases hc2 : 2 ≤ cols
+      · by_cases hfit : e.cur.col + 1 < cols
+        · have hp : t.pw = false := by
+            have := s.pw; rw [this, decide_eq_false_iff_not]; omega
+          obtain ⟨e', a, b, c⟩ := print_wide_nowrap s hl hp hfit g hg
+          exact ⟨e', a, b, fun _ => c⟩
+        · obtain ⟨e', a, b, c⟩ := print_wide_wrap s hnel hc2 (by omega) g hg
+          exact ⟨e', a, b, fun _ => c⟩
+      · have hc1 : cols = 1 := by have := s.dim.c1; omega
+        subst hc1
+        obtain ⟨e', a, b⟩ := print_wide_cols1 s g
+        exact ⟨e', a, b, fun h => by omega⟩
+    · obtain ⟨e', he', _⟩ := print_safe s.inv s.dim g w
+      refine ⟨e', he', ?_, fun h => by omega⟩
+      have : Term.step t (.print g w) = .unconstrained := by
+        simp [Term.step, h1, h2]
+      rw [this]
+      trivial
+
+
+/-! ### non-vacuity: related states exist, without and with pending wrap -/
+
+/-- a blank 1×2 emulator, cursor at column `c` -/
+def exE (c : Int) (lc : Bool) : Emu :=
+  { primary := [[{}, {}]], alt := [[{}, {}]], bottom := 0, right := 1, cur := { col := c }, lastCol := lc }
+
+theorem exSim0 : Sim (Term.T.init 1 2) (exE 0 false) 1 2 :=
+  { inv := { prim := ⟨rfl, by decide⟩, alt := ⟨rfl, by decide⟩, rowLo := by decide, rowHi := by decide,
+             colLo := by decide, colHi := by decide, topLo := by decide, topLe := by decide,
+             botHi := by decide, left0 := rfl, right := by decide,
+             savedP := ⟨by decide, by decide, by decide, by decide⟩,
+             savedA := ⟨by decide, by decide, by decide, by decide⟩,
+             tabs := by decide }
+    dim := ⟨by decide, by decide, by decide, by decide⟩
+    vm := ⟨rfl, rfl, rfl, rfl, rfl⟩
+    trows := rfl, tcols := rfl, onAlt := rfl, row := rfl, col := by decide, pw := by decide
+    pen := by decide, link := rfl, top := rfl, bottom := rfl, grid := by decide }
+
+theorem exSim2 : Sim { Term.T.init 1 2 with col := 1, pw := true } (exE 2 true) 1 2 :=
+  { inv := { prim := ⟨rfl, by decide⟩, alt := ⟨rfl, by decide⟩, rowLo := by decide, rowHi := by decide,
+             colLo := by decide, colHi := by decide, topLo := by decide, topLe := by decide,
+             botHi := by decide, left0 := rfl, right := by decide,
+             savedP := ⟨by decide, by decide, by decide, by decide⟩,
+             savedA := ⟨by decide, by decide, by decide, by decide⟩,
+             tabs := by decide }
+    dim := ⟨by decide, by decide, by decide, by decide⟩
+    vm := ⟨rfl, rfl, rfl, rfl, rfl⟩
+    trows := rfl, tcols := rfl, onAlt := rfl, row := rfl, col := by decide, pw := by decide
+    pen := by decide, link := rfl, top := rfl, bottom := rfl, grid := by decide }
+
+/-- the hypotheses of `print_narrow_nowrap` / `print_wide_nowrap` / `ich_refines` / `dch_refines` -/
+example : ∃ t e, Sim t e 1 2 ∧ LastColOk e 2 ∧ t.pw = false ∧ e.cur.col + 1 < 2 :=
+  ⟨_, _, exSim0, (fun h => by cases h), rfl, by decide⟩
+
+/-- the hypotheses of `print_narrow_wrap` / `print_wide_wrap` (other than `NelHyp`) -/
+example : ∃ t e, Sim t e 1 2 ∧ LastColOk e 2 ∧ t.pw = true ∧ (2 : Int) ≤ e.cur.col + 1 :=
+  ⟨_, _, exSim2, (fun _ => by decide), rfl, by decide⟩
 
 end VaxisModel.Lemmas.EmuRefine
